@@ -2,6 +2,7 @@ package props
 
 import (
 	"fmt"
+	"reflect"
 	"regexp"
 	"sort"
 	"strings"
@@ -407,5 +408,253 @@ func TestC17(t *testing.T) {
 		}
 	}
 	runRapid(t, n, prop)
+
+	// the other direction: tables first
+	fwd := func(rt *rapid.T) {
+		names := []string{"ll", "la", "l", "both", "src", "ls", "e"}
+		table := map[string]c17Frag{}
+		for i := rapid.IntRange(1, 5).Draw(rt, "naliases"); i > 0; i-- {
+			nm := rapid.SampledFrom(names).Draw(rt, "alias")
+			table[nm] = c17GenFrag(rt, names, true)
+		}
+		line := c17GenFrag(rt, names, false)
+		if rapid.IntRange(0, 4).Draw(rt, "line_comment") == 0 && line.Cmds[len(line.Cmds)-1].Wrap == "" {
+			line.Comment = " # c"
+		}
+		src := line.text() + "\n"
+		unfolded, amb := c17Unfold(line, table, map[string]bool{}, 0, true)
+		unfolded += "\n"
+		if rapid.IntRange(0, 3).Draw(rt, "two_lines") == 0 {
+			l2 := c17GenFrag(rt, names, false)
+			u2, amb2 := c17Unfold(l2, table, map[string]bool{}, 0, true)
+			amb = amb || amb2
+			src = "{ " + line.text() + "\n" + l2.text() + "\n}\n"
+			unfolded = "{ " + strings.TrimSuffix(unfolded, "\n") + "\n" + u2 + "\n}\n"
+			st.Class("forward_two_lines")
+		}
+		if amb {
+			st.Class("forward_skipped_blank_ended_alias_ends_a_value_that_does_not")
+			return
+		}
+		c := c17Fwd{Src: src, Aliases: map[string]string{}, Unfolded: unfolded}
+		uses := 0
+		for k, v := range table {
+			c.Aliases[k] = v.text()
+			if v.Comment != "" {
+				st.Class("forward_value_with_comment")
+			}
+			uses += strings.Count(" "+unfolded, k)
+		}
+		jr.begin("C17", "forward", c)
+		err := checkC17Fwd(c)
+		jr.end()
+		if err != nil {
+			fail(rt, "C17", "forward", c, "%v", err)
+		}
+		st.Eval(src != unfolded && len(table) >= 2, src, fmt.Sprint(c.Aliases))
+		st.Class("forward_cases")
+		if src != unfolded {
+			st.Class("forward_cases_with_a_replacement")
+			st.Sample(map[string]any{"src": src, "aliases": c.Aliases, "replaced": unfolded})
+		}
+	}
+	runRapid(t, n/3, fwd)
+	st.Note("tables first: 1-5 aliases over 7 names whose values are 1-3 simple commands (optionally behind an assignment word, inside ! { } ( )) joined by ; | && ||, with alias names in command and in argument position, quoted spellings of them, trailing blanks or a comment at the end of the value; the source is such a line (or two lines in a brace group); the replacement is carried out on the structure (a name is not replaced inside its own expansion, the word behind a value that ends in a blank is examined) and the resulting text, parsed without aliases, is the oracle")
 	st.Note("generated program P; random command-position token runs are folded into fresh alias names (values of 1-6 tokens incl. operators, reserved words, assignments, redirections, ending inside compound commands), optionally named like their own first word (self-reference), optionally with a trailing blank whose following word is folded too, optionally chained up to depth 5; alias definitions for words in argument / pattern / quoted positions and for reserved words must never apply; oracle: skeleton(parse(folded, aliases)) == skeleton(P). Plus random alias tables over the same programs for termination only.")
+}
+
+// ---- the other direction: alias tables first ---------------------------------
+//
+// The folding generator above starts from a program and never makes a value
+// that uses one alias twice, holds a comment, or is followed by an argument
+// that names an alias. Here tables and sources are built from a small
+// structured language in which every word is known to stand in command
+// position or not, the textual replacement the property describes is carried
+// out on that structure, and parsing the result without aliases is the oracle.
+
+type c17Fwd struct {
+	Src      string            `json:"src"`
+	Aliases  map[string]string `json:"aliases"`
+	Unfolded string            `json:"unfolded"` // the text after the replacement
+}
+
+func checkC17Fwd(c c17Fwd) error {
+	want, _, werr := parser.ParseCommands(nil, "c17", c.Unfolded)
+	env := interp.NewExecEnv("sh")
+	for k, v := range c.Aliases {
+		env.Aliases[k] = v
+	}
+	type res struct {
+		cmds []ast.Command
+		err  error
+	}
+	done := make(chan res, 1)
+	go func() {
+		cmds, _, err := parser.ParseCommands(env, "c17", c.Src)
+		done <- res{cmds, err}
+	}()
+	var r res
+	select {
+	case r = <-done:
+	case <-time.After(30 * time.Second):
+		return fmt.Errorf("alias substitution does not terminate within 30s\nsrc: %q\naliases: %q", c.Src, c.Aliases)
+	}
+	if werr != nil {
+		if r.err == nil {
+			return fmt.Errorf("the text after the replacement is rejected (%v), the source with aliases is accepted\nsrc: %q\naliases: %q\nreplaced: %q", werr, c.Src, c.Aliases, c.Unfolded)
+		}
+		return nil
+	}
+	if r.err != nil {
+		return fmt.Errorf("the source with aliases is rejected: %v\nsrc: %q\naliases: %q\nreplaced: %q", r.err, c.Src, c.Aliases, c.Unfolded)
+	}
+	if g, w := oracle.Commands(r.cmds, oracle.Exact), oracle.Commands(want, oracle.Exact); !reflect.DeepEqual(g, w) {
+		return fmt.Errorf("parsing with aliases differs from the textual replacement\nsrc: %q\naliases: %q\nreplaced: %q\ngot:  %s\nwant: %s", c.Src, c.Aliases, c.Unfolded, strings.Join(g, " "), strings.Join(w, " "))
+	}
+	return nil
+}
+
+func init() { reg("C17", "forward", checkC17Fwd) }
+
+// c17W is a word: Text as written; Name is the alias name it may stand for
+// ("" for quoted spellings, options, assignments).
+type c17W struct{ Text, Name string }
+
+// c17Cmd is a simple command, optionally wrapped.
+type c17Cmd struct {
+	Wrap  string // "", "! ", "{ %s; }", "( %s )"
+	Words []c17W // words[0] (behind assignment words) is in command position
+	Sep   string // separator that follows: " ; ", ";", " | ", " && ", " || ", ""
+}
+
+type c17Frag struct {
+	Cmds    []c17Cmd
+	Blank   string // trailing blanks of an alias value
+	Comment string // " #..." at the end of a value or line
+}
+
+func (f c17Frag) text() string {
+	var b strings.Builder
+	for _, c := range f.Cmds {
+		var ws []string
+		for _, w := range c.Words {
+			ws = append(ws, w.Text)
+		}
+		t := strings.Join(ws, " ")
+		if c.Wrap != "" {
+			if strings.Contains(c.Wrap, "%s") {
+				t = fmt.Sprintf(c.Wrap, t)
+			} else {
+				t = c.Wrap + t
+			}
+		}
+		b.WriteString(t + c.Sep)
+	}
+	return b.String() + f.Comment + f.Blank
+}
+
+// c17Unfold carries out the replacement. ambiguous: an alias whose value
+// ends in a blank is the last word of a value that does not (whether the
+// word after the outer alias is then examined is read differently).
+//
+// cmdPos: the fragment begins in command position. A value that replaces a
+// word examined because of a blank begins in argument position: its first
+// word is examined (a chain), but a leading "!", "{" or "(" is then an
+// ordinary word and what follows it an argument.
+func c17Unfold(f c17Frag, table map[string]c17Frag, active map[string]bool, depth int, cmdPos bool) (text string, ambiguous bool) {
+	var b strings.Builder
+	for ci, c := range f.Cmds {
+		var ws []string
+		examine := true
+		if ci == 0 && !cmdPos && c.Wrap != "" {
+			examine = false
+		}
+		for wi, w := range c.Words {
+			if strings.Contains(w.Text, "=") && w.Name == "" && examine {
+				// an assignment word: the next word is still the command name
+				ws = append(ws, w.Text)
+				continue
+			}
+			v, isAlias := table[w.Name]
+			if examine && w.Name != "" && isAlias && !active[w.Name] && depth < 40 {
+				active[w.Name] = true
+				// is this word the command name of a command?
+				first := wi == 0 || wi == 1 && strings.Contains(c.Words[0].Text, "=") && c.Words[0].Name == ""
+				sub, amb := c17Unfold(v, table, active, depth+1, first && (ci > 0 || cmdPos))
+				delete(active, w.Name)
+				ambiguous = ambiguous || amb
+				ws = append(ws, strings.TrimRight(sub, " \t"))
+				examine = v.Blank != ""
+				if examine && ci == len(f.Cmds)-1 && wi == len(c.Words)-1 && f.Blank == "" && depth > 0 {
+					ambiguous = true
+				}
+				continue
+			}
+			ws = append(ws, w.Text)
+			examine = false
+		}
+		t := strings.Join(ws, " ")
+		if c.Wrap != "" {
+			if strings.Contains(c.Wrap, "%s") {
+				t = fmt.Sprintf(c.Wrap, t)
+			} else {
+				t = c.Wrap + t
+			}
+		}
+		b.WriteString(t + c.Sep)
+	}
+	return b.String() + f.Comment + f.Blank, ambiguous
+}
+
+func c17GenFrag(rt *rapid.T, names []string, value bool) c17Frag {
+	var f c17Frag
+	n := rapid.SampledFrom([]int{1, 1, 2, 2, 3}).Draw(rt, "ncmds")
+	for i := 0; i < n; i++ {
+		var c c17Cmd
+		c.Wrap = rapid.SampledFrom([]string{"", "", "", "", "! ", "{ %s; }", "( %s )"}).Draw(rt, "wrap")
+		assign := rapid.IntRange(0, 5).Draw(rt, "assign") == 0
+		if assign {
+			c.Words = append(c.Words, c17W{Text: "v=1"})
+		}
+		nw := rapid.SampledFrom([]int{1, 1, 2, 2, 3}).Draw(rt, "nwords")
+		for j := 0; j < nw; j++ {
+			if j == 0 && assign {
+				// behind an assignment word reserved words are ordinary words, so
+				// that the command name there is never an alias (whose value might
+				// begin with one)
+				pl := rapid.SampledFrom([]string{"echo", "cd", "true", "cat"}).Draw(rt, "cmdname_plain")
+				c.Words = append(c.Words, c17W{Text: pl})
+				continue
+			}
+			switch rapid.IntRange(0, 9).Draw(rt, "word") {
+			case 0, 1, 2, 3, 4:
+				nm := rapid.SampledFrom(names).Draw(rt, "name")
+				c.Words = append(c.Words, c17W{Text: nm, Name: nm})
+			case 5:
+				nm := rapid.SampledFrom(names).Draw(rt, "qname")
+				q := rapid.SampledFrom([]string{`\%s`, `'%s'`, `"%s"`, `%s''`}).Draw(rt, "quoting")
+				c.Words = append(c.Words, c17W{Text: fmt.Sprintf(q, nm)})
+			case 6:
+				c.Words = append(c.Words, c17W{Text: rapid.SampledFrom([]string{"-l", "-a", "x", "./src", "~/src", "$v", "*.go"}).Draw(rt, "plain")})
+			default:
+				pl := rapid.SampledFrom([]string{"ls", "echo", "cd", "true", "cat"}).Draw(rt, "cmdname")
+				c.Words = append(c.Words, c17W{Text: pl, Name: pl})
+			}
+		}
+		if i < n-1 {
+			c.Sep = rapid.SampledFrom([]string{" ; ", ";", " | ", " && ", " || ", "|"}).Draw(rt, "sep")
+		}
+		f.Cmds = append(f.Cmds, c)
+	}
+	if value {
+		switch rapid.IntRange(0, 7).Draw(rt, "tail") {
+		case 0, 1, 2:
+			f.Blank = rapid.SampledFrom([]string{" ", "  ", "\t"}).Draw(rt, "blank")
+		case 3:
+			if f.Cmds[len(f.Cmds)-1].Wrap == "" {
+				f.Comment = rapid.SampledFrom([]string{" #note", " # dirs only", " #"}).Draw(rt, "comment")
+			}
+		}
+	}
+	return f
 }
